@@ -731,10 +731,47 @@ func c20Dispatch(c *core.Ctx) {
 		l := loops[role]
 		var fd c20Finding
 		matching := 0
+		undecidedTable := false
 		key, val := c20Var(f, l.Key), c20Var(f, l.Value)
 		for _, call := range calls(l.Body, false) {
 			name := tcCall(call)
 			if name == "" {
+				// dependency inversion: the verb is picked from a table of bound method values
+				// (funcs.delete(ns, name) with funcs := trafficObjectFuncsOf(kind))
+				if fld := c20FieldOf(f, call.Fun); fld != nil {
+					if _, isFn := fld.Type().Underlying().(*types.Signature); isFn {
+						names, why := c20TableVerbs(c, f, fld, pipeKind)
+						switch {
+						case why != "":
+							c.Undecide("R-C20-4", cons+"|"+verbs[role]+" loop: dispatch", pos(c, call), "the class is dispatched through the function-valued field "+fld.Name()+": "+why)
+							undecidedTable = true
+						default:
+							for _, n := range names {
+								if !strings.HasPrefix(n, verbs[role]) {
+									fd.fail(nil, call, "the "+role+" class of the event is handed (through the table field "+fld.Name()+") to TrafficController."+n)
+								}
+							}
+							if len(names) > 0 {
+								matching++
+								if len(call.Args) == 2 {
+									arg := c20Var(f, call.Args[1])
+									if role == "delete" && (arg == nil || arg != key) {
+										fd.fail(nil, call, "the name handed to the "+fld.Name()+" function is not the deleted name of this iteration")
+									}
+									if role != "delete" && (arg == nil || arg != val) {
+										fd.fail(nil, call, "the entity handed to the "+fld.Name()+" function is not the entity of this iteration")
+									}
+								}
+								for _, st := range res.At[call] {
+									fd.n++
+									if role != "delete" && !st.Is("ev:done:delete", flow.True) {
+										fd.fail(st, call, "the "+role+" class is dispatched before the deletions of the same event are finished: an object replacing a deleted one (same name after a kind change, same port) is started while the old one is still live")
+									}
+								}
+							}
+						}
+					}
+				}
 				continue
 			}
 			isPipe := strings.HasSuffix(name, "Pipeline")
@@ -782,6 +819,9 @@ func c20Dispatch(c *core.Ctx) {
 				}
 			}
 		}
+		if undecidedTable {
+			continue
+		}
 		if matching == 0 {
 			fd.fail(nil, l, "the "+role+" class of the event is not handed to any TrafficController."+verbs[role]+"* method: these objects are never reconciled")
 		}
@@ -813,4 +853,126 @@ func c20InlineRelevant(f *flow.Func, except []types.Object, relevant func(g *flo
 		}
 		return g
 	}
+}
+
+// c20TableVerbs resolves a function-valued struct field to the TrafficController methods stored in
+// it anywhere in the package (composite literals of bound method values). Every literal must hold
+// methods of one sort only (…Pipeline or …TrafficGate) and be built on a path where the kind has
+// been compared equal (pipelines) / different (traffic gates) to the pipeline kind. A non-empty
+// why means the table cannot be read.
+func c20TableVerbs(c *core.Ctx, f *flow.Func, fld *types.Var, pipeKind string) (names []string, why string) {
+	pre := "(*" + c20tc + ".TrafficController)."
+	for _, file := range f.Pkg.Syntax {
+		for _, d := range file.Decls {
+			hfd, ok := d.(*ast.FuncDecl)
+			if !ok || hfd.Body == nil {
+				continue
+			}
+			h := flow.NewFunc(f.Pkg, hfd)
+			var res *flow.Result
+			pm := map[ast.Node]ast.Node(nil)
+			ast.Inspect(hfd.Body, func(n ast.Node) bool {
+				switch x := n.(type) {
+				case *ast.AssignStmt:
+					for _, l := range x.Lhs {
+						if c20FieldOf(h, l) == fld {
+							why = "the field is assigned outside a composite literal"
+						}
+					}
+				case *ast.CompositeLit:
+					var mine ast.Expr
+					sorts := map[string]bool{}
+					for _, el := range x.Elts {
+						kv, ok := el.(*ast.KeyValueExpr)
+						if !ok {
+							continue
+						}
+						id, ok := kv.Key.(*ast.Ident)
+						if !ok {
+							continue
+						}
+						fv, _ := h.Info.Uses[id].(*types.Var)
+						if fv == nil {
+							continue
+						}
+						// every function-valued entry of the literal tells the sort
+						sel, isSel := ast.Unparen(kv.Value).(*ast.SelectorExpr)
+						var full string
+						if isSel {
+							if mo, ok := h.Info.Uses[sel.Sel].(*types.Func); ok {
+								full = strings.ReplaceAll(mo.FullName(), Mod, "")
+							}
+						}
+						if strings.HasPrefix(full, pre) {
+							m := strings.TrimPrefix(full, pre)
+							switch {
+							case strings.HasSuffix(m, "Pipeline"):
+								sorts["pipeline"] = true
+							case strings.HasSuffix(m, "TrafficGate"):
+								sorts["gate"] = true
+							}
+							if fv == fld {
+								names = append(names, m)
+								mine = kv.Value
+							}
+						} else if fv == fld {
+							why = "an entry of the table is not a bound TrafficController method"
+						}
+					}
+					if mine == nil {
+						return true
+					}
+					if len(sorts) != 1 {
+						why = "a table literal mixes pipeline and traffic-gate methods"
+						return true
+					}
+					// the literal must be built where the kind test has the matching outcome
+					if res == nil {
+						res = analyze(c, h, flow.Config{})
+						pm = parentMap(hfd)
+					}
+					if res == nil {
+						why = "the function building the table cannot be analysed"
+						return true
+					}
+					var stmt ast.Node = x
+					for stmt != nil && len(res.At[stmt]) == 0 {
+						stmt = pm[stmt]
+					}
+					if stmt == nil {
+						why = "the statement building the table is unreachable"
+						return true
+					}
+					var keys []string
+					ast.Inspect(hfd.Body, func(m ast.Node) bool {
+						if be, ok := m.(*ast.BinaryExpr); ok && (be.Op == token.EQL || be.Op == token.NEQ) {
+							for _, side := range []ast.Expr{be.X, be.Y} {
+								if tv, ok := h.Info.Types[side]; ok && tv.Value != nil && tv.Value.ExactString() == pipeKind {
+									k, _ := h.Atom(be)
+									keys = append(keys, k)
+								}
+							}
+						}
+						return true
+					})
+					for _, st := range res.At[stmt] {
+						v := flow.Unknown
+						for _, k := range keys {
+							if t := st.Get(k); t != flow.Unknown {
+								v = t
+							}
+						}
+						if (sorts["pipeline"] && v != flow.True) || (sorts["gate"] && v != flow.False) {
+							why = "a table of " + map[bool]string{true: "pipeline", false: "traffic-gate"}[sorts["pipeline"]] + " methods is built on a path where the kind was not compared accordingly with the pipeline kind"
+						}
+					}
+				}
+				return true
+			})
+		}
+	}
+	if len(names) == 0 && why == "" {
+		why = "no bound TrafficController method is stored in it"
+	}
+	return names, why
 }
